@@ -113,6 +113,7 @@ type world struct {
 	r      *rand.Rand
 	set    *forge.Set
 	set2   *forge.Set // same keys, the records as of the seed look-back header and the parent: other status/stake, one more member
+	canon    *types.Header // an honest header that was accepted: stored as the canonical header of its height for the "re-presented" operator
 	hnX      [2]*honest // an honest header's ingredients under set2 / on the other seed
 	hnXTried [2]bool
 	yp     *params.YouParams
@@ -314,6 +315,13 @@ func (w *world) build(hn *honest, ops []string) *variant {
 	if has("author-proposer-threshold") {
 		propTh = pick(propTh)
 	}
+	// re-presented: the hashed part of a header that is ALREADY canonical at this height (it was
+	// verified once), offered again with another vote container / certificate / seal - the header
+	// hash does not cover those three fields
+	represent := has("re-presented-canonical")
+	if represent && w.canon == nil {
+		return nil
+	}
 	// ---- proposer ----
 	proposer, pcred := hn.proposer, hn.pcred
 	sealKey := proposer.Key
@@ -397,10 +405,19 @@ func (w *world) build(hn *honest, ops []string) *variant {
 	var newSeed common.Hash
 	r.Read(newSeed[:])
 	consKey := proposer.Key
-	if _, err := forge.Propose(h, proposer, pcred, hn.index, newSeed, propTh, valTh, certTh, claimJ, prio, consKey); err != nil {
+	if represent {
+		h = types.CopyHeader(w.canon)
+		h.Validator, h.Signature, h.Certificate = nil, nil, nil
+		valTh = cp.ValidatorThreshold
+		proposer, sealKey = hn.proposer, hn.proposer.Key
+		v.proposerOK = true
+	} else if _, err := forge.Propose(h, proposer, pcred, hn.index, newSeed, propTh, valTh, certTh, claimJ, prio, consKey); err != nil {
 		return nil
 	}
 	hash := h.Hash()
+	if represent && hash != w.canon.Hash() {
+		return nil
+	}
 	round := h.Number
 	// ---- votes ----
 	cidx := hn.index
@@ -880,6 +897,10 @@ var combos = [][]string{
 // crosses: the aggregated signature is the only thing that binds the (block-independent) sortition
 // credentials to THIS block, so every way of spoiling the aggregate is crossed with every way of
 // adding votes that were not given for this block/index/step.
+// operators that only touch the vote container (usable on a re-presented canonical header)
+var voteOps = []string{"drop-below-quorum", "few-votes", "duplicate-votes", "house-voter", "offline-voter", "outsider-voter", "replayed-other-block",
+	"wrong-index-votes", "wrong-step-credential", "inflated-votes", "voter-of-other-height-set", "credential-of-other-height-seed", "aggregate-garbage", "aggregate-subset", "garbage-validator-bytes"}
+
 var aggOps = []string{"aggregate-empty", "aggregate-garbage", "aggregate-other-payload"}
 var foreignOps = []string{"voter-of-other-height-set", "credential-of-other-height-seed", "replayed-other-block", "wrong-index-votes", "wrong-step-credential", "house-voter", "offline-voter", "duplicate-votes"}
 var certForeignOps = []string{"cert-other-block", "cert-wrong-step", "cert-precommit-credentials", "cert-duplicate"}
@@ -911,6 +932,11 @@ func run(c *kit.Ctx) {
 			switch {
 			case k%8 == 0:
 				ops = nil // honest
+			case k%8 == 3:
+				ops = []string{"re-presented-canonical", voteOps[r.Intn(len(voteOps))]}
+				if w.cert && r.Intn(2) == 0 {
+					ops = []string{"re-presented-canonical", certSingles[r.Intn(len(certSingles))]}
+				}
 			case k%8 < 5:
 				ops = []string{singles[r.Intn(len(singles))]}
 			case k%8 == 5:
@@ -987,6 +1013,11 @@ func judge(c *kit.Ctx, w *world, hn *honest, ops []string) {
 		{"VerifySeal", func() error { return w.withCertLB(v, func() error { return w.srv.VerifySeal(w.chain, v.header) }) }},
 	}
 	accepted := false
+	if strings.Contains(opname, "re-presented-canonical") {
+		w.chain.headers[w.number] = w.canon
+		defer delete(w.chain.headers, w.number)
+		c.Count("re_presented_canonical_headers", 1)
+	}
 	for _, call := range calls {
 		var err error
 		g := kit.Guard(func() { err = call.f() })
@@ -1021,6 +1052,9 @@ func judge(c *kit.Ctx, w *world, hn *honest, ops []string) {
 		c.Count("boundary_headers", 1)
 	}
 	c.Sig(fmt.Sprintf("%s acc%v %s prop%v", opname, accepted, bucket, v.proposerOK))
+	if len(v.ops) == 0 && accepted && w.canon == nil {
+		w.canon = v.header
+	}
 	if len(v.ops) == 0 {
 		if accepted && w.cert {
 			c.Count("honest_certificate_round_accepted", 1)
